@@ -58,6 +58,9 @@ struct request {
 	int answered;          /* own: the peer has sent the reply */
 	int seen_by_peer;      /* own: the request frame arrived */
 	MPT_INTERFACE(reply_context_detached) *deferred;
+	MPT_INTERFACE(reply_context) *rc;   /* reply context seen by the handler (lives with the connection) */
+	int full_queue;        /* dispatched while the peer's datagram queue was full */
+	int first_ret;         /* result of the handler's reply call */
 	uint8_t payload[16];
 	size_t plen;
 };
@@ -117,6 +120,8 @@ static int hnd(void *arg, MPT_STRUCT(event) *ev)
 	         vf_hex(hx1, sizeof(hx1), body, n), vf_hex(hx2, sizeof(hx2), q->payload, q->plen));
 	if (q->zero) { vf_count("request:without-id", 1); return q->handler_ret; }
 	VF_CHECK(ev->reply != 0, "model:conn:no-reply-context", "request #%d (id %s) dispatched without reply context", q->serial, vf_hex(hx1, sizeof(hx1), q->id, idlen));
+	q->rc = ev->reply;
+	q->first_ret = 1;
 	if (q->plan == PlanReply || q->plan == PlanReplyTwice) {
 		for (int k = 0; k < (q->plan == PlanReplyTwice ? 2 : 1); k++) {
 			MPT_STRUCT(message) ans = MPT_MESSAGE_INIT;
@@ -137,7 +142,13 @@ static int hnd(void *arg, MPT_STRUCT(event) *ev)
 			vf_count("reply_context.reply", 1);
 			r = ev->reply->_vptr->reply(ev->reply, &ans);
 			vf_log("   handler #%d: reply attempt %d = %d", q->serial, k, r);
-			if (!k) VF_CHECK(r >= 0, "model:conn:reply-refused", "first reply to request #%d returned %d", q->serial, r);
+			if (!k) q->first_ret = r;
+			if (!k && q->full_queue) {
+				/* the socket may legitimately reject: the request then stays pending (retried after the peer has drained) */
+				vf_count("conn:reply-attempted-on-full-datagram-queue", 1);
+				vf_count(r < 0 ? "conn:reply-rejected-by-full-queue" : "conn:reply-accepted-on-full-queue", 1);
+			}
+			else if (!k) VF_CHECK(r >= 0, "model:conn:reply-refused", "first reply to request #%d returned %d", q->serial, r);
 			else { vf_count("monitor:further-reply-refused", 1); VF_CHECK(r < 0, "model:reply:second-accepted", "second reply to request #%d returned %d", q->serial, r); }
 		}
 	} else if (q->plan == PlanDeferReply || q->plan == PlanDeferRelease) {
@@ -364,6 +375,100 @@ void vf_case(uint64_t idx, vf_rng *r)
 		if (vf_chance(r, 3, 5)) {
 			/* requests of the peer */
 			int congest = !dgram && vf_chance(r, 1, 3);
+			if (dgram && vf_chance(r, 1, 3)) {
+				/*
+				 * one request answered while the peer's datagram queue is full (non-blocking socket): the
+				 * send is rejected, the request stays pending; after the peer has drained a retry (context
+				 * or deferred handle) must go through.  A reply call that reported success must have
+				 * reached the peer, once.
+				 */
+				struct request *q = &reqs[nreq];
+				uint8_t fill[24], frame[64], bdy[3];
+				MPT_STRUCT(message) ans = MPT_MESSAGE_INIT;
+				static const int plans[3] = { PlanSilent, PlanReply, PlanDeferReply };
+				size_t fl;
+				int msgs = 0;
+				memset(fill, 0xEE, sizeof(fill));
+				cur = "fill datagram queue";
+				while (msgs < 5000) {
+					vf_at("mpt_connection_push");
+					if (mpt_connection_push(&con, sizeof(fill), fill) < 0 || mpt_connection_push(&con, 0, 0) < 0) break;
+					msgs++;
+				}
+				if (msgs >= 5000) vf_inconclusive("datagram queue of the peer never filled");
+				vf_log("peer queue full after %d filler datagrams", msgs);
+				peer_stalled = 1;
+				memset(q, 0, sizeof(*q));
+				q->serial = nreq;
+				q->id[idlen - 1] = (uint8_t) (nreq + 1);
+				if (idlen > 1) q->id[0] = (uint8_t) vf_below(r, 0x80);
+				q->plan = plans[vf_below(r, 3)];
+				q->full_queue = 1;
+				q->plen = 1 + vf_below(r, 10);
+				q->payload[0] = (uint8_t) nreq;
+				vf_bytes(r, q->payload + 1, q->plen - 1);
+				memcpy(frame, q->id, idlen); fl = idlen;
+				memcpy(frame + fl, q->payload, q->plen); fl += q->plen;
+				cur = "request on full queue";
+				peer_send(sv[1], frame, fl);
+				vf_count("peer:requests-sent", 1);
+				vf_fp_u64(0xd9); vf_fp(frame, fl); vf_fp_u64((uint64_t) q->plan);
+				nreq++; n_peer++;
+				pump(sv[1]);
+				VF_CHECK(q->handled == 1, "model:conn:request-dropped-unanswered", "request #%d sent while the reverse queue is full was not dispatched", q->serial);
+				if (q->plan == PlanSilent) vf_count("conn:reply-attempted-on-full-datagram-queue", 1);   /* the dispatcher's default reply */
+				if (q->deferred) {
+					/* deferred answer attempted while the queue is still full */
+					int ret;
+					reply_body(q, 2, bdy);
+					ans.base = bdy; ans.used = 3;
+					cur = "deferred reply on full queue";
+					vf_at("reply_context_detached.reply");
+					vf_count("reply_context_detached.reply", 1);
+					vf_count("conn:reply-attempted-on-full-datagram-queue", 1);
+					ret = q->deferred->_vptr->reply(q->deferred, &ans);
+					vf_log("deferred reply on full queue = %d", ret);
+					vf_count(ret < 0 ? "conn:reply-rejected-by-full-queue" : "conn:reply-accepted-on-full-queue", 1);
+					if (ret >= 0) { q->deferred = 0; q->first_ret = ret; q->plan = PlanDeferReply; n_defer++; }
+					else q->first_ret = ret;
+				}
+				/* the peer reads again */
+				peer_stalled = 0;
+				cur = "drain datagram queue";
+				peer_read(sv[1]);
+				vf_count("monitor:full-queue-reply-accounted", 1);
+				if ((q->plan == PlanReply || (q->plan == PlanDeferReply && !q->deferred)) && q->first_ret >= 0)
+					VF_CHECK(q->replies_seen == 1, "model:conn:reply-reported-success-not-delivered",
+					         "reply to request #%d returned %d although the peer's queue was full, and the peer got %d frames for it", q->serial, q->first_ret, q->replies_seen);
+				if (!q->replies_seen) {
+					int ret;
+					reply_body(q, q->plan == PlanDeferReply ? 2 : 0, bdy);
+					ans.base = bdy; ans.used = 3;
+					cur = "retry after drain";
+					if (q->deferred) {
+						vf_at("reply_context_detached.reply");
+						vf_count("reply_context_detached.reply", 1);
+						ret = q->deferred->_vptr->reply(q->deferred, &ans);
+						if (ret >= 0) q->deferred = 0;
+						n_defer++;
+					} else {
+						vf_at("reply_context.reply");
+						vf_count("reply_context.reply(retry)", 1);
+						ret = q->rc->_vptr->reply(q->rc, &ans);
+					}
+					vf_log("retry for request #%d after the peer drained = %d", q->serial, ret);
+					VF_CHECK(ret >= 0, "model:conn:retry-refused",
+					         "request #%d was answered while the peer's datagram queue was full (nothing reached the peer); the retry after the peer drained is refused (%d): the rejected send was booked as answer",
+					         q->serial, ret);
+					if (q->plan == PlanSilent) q->plan = PlanReply;   /* the frame now carries an explicit body */
+					peer_read(sv[1]);
+					VF_CHECK(q->replies_seen == 1, "model:conn:no-reply", "request #%d: retry accepted but the peer has %d frames", q->serial, q->replies_seen);
+					vf_count("conn:retry-after-full-queue", 1);
+				}
+				if (dl + 16 < sizeof(desc)) dl += (size_t) snprintf(desc + dl, sizeof(desc) - dl, " fullq(p%d)", q->plan);
+				pump(sv[1]);
+				continue;
+			}
 			if (congest) {
 				/* fill the socket towards the peer with one-way messages until the stream cannot flush any more */
 				uint8_t fill[240];
